@@ -6,6 +6,7 @@ use crate::walk::*;
 use proptest::prelude::*;
 use rsdd::builder::bdd::RobddBuilder;
 use rsdd::builder::cache::IteTable;
+use rsdd::builder::BottomUpBuilder;
 use rsdd::repr::BddPtr;
 use serde::{Deserialize, Serialize};
 use std::collections::{BTreeSet, HashMap};
@@ -164,13 +165,92 @@ impl SubCheckT for Hist {
     }
 }
 
+// ---------------------------------------------------------------------------
+// histories over more variables than the truth-table oracle holds
+// ---------------------------------------------------------------------------
+
+pub struct BigHist;
+
+struct BddOps<'a, T: IteTable<'a, BddPtr<'a>> + Default>(&'a RobddBuilder<'a, T>);
+
+impl<'a, T: IteTable<'a, BddPtr<'a>> + Default> crate::bighist::BigOps<BddPtr<'a>> for BddOps<'a, T> {
+    fn lit(&self, v: usize, p: bool) -> BddPtr<'a> {
+        self.0.var(rsdd::repr::VarLabel::new_usize(v), p)
+    }
+    fn not(&self, a: BddPtr<'a>) -> BddPtr<'a> {
+        self.0.negate(a)
+    }
+    fn and(&self, a: BddPtr<'a>, b: BddPtr<'a>) -> BddPtr<'a> {
+        self.0.and(a, b)
+    }
+    fn or(&self, a: BddPtr<'a>, b: BddPtr<'a>) -> BddPtr<'a> {
+        self.0.or(a, b)
+    }
+    fn xor(&self, a: BddPtr<'a>, b: BddPtr<'a>) -> BddPtr<'a> {
+        self.0.xor(a, b)
+    }
+    fn iff(&self, a: BddPtr<'a>, b: BddPtr<'a>) -> BddPtr<'a> {
+        self.0.iff(a, b)
+    }
+    fn ite(&self, a: BddPtr<'a>, b: BddPtr<'a>, c: BddPtr<'a>) -> BddPtr<'a> {
+        self.0.ite(a, b, c)
+    }
+    fn cond(&self, a: BddPtr<'a>, v: usize, val: bool) -> BddPtr<'a> {
+        self.0.condition(a, rsdd::repr::VarLabel::new_usize(v), val)
+    }
+    fn exists(&self, a: BddPtr<'a>, v: usize) -> BddPtr<'a> {
+        self.0.exists(a, rsdd::repr::VarLabel::new_usize(v))
+    }
+    fn compose(&self, a: BddPtr<'a>, v: usize, g: BddPtr<'a>) -> BddPtr<'a> {
+        self.0.compose(a, rsdd::repr::VarLabel::new_usize(v), g)
+    }
+    fn eval(&self, a: BddPtr<'a>, asg: &[bool]) -> bool {
+        crate::big::bdd_eval(a, asg)
+    }
+    fn size(&self, a: BddPtr<'a>) -> usize {
+        bdd_nodes(a).len()
+    }
+}
+
+pub fn run_big_hist(case: &crate::bighist::BigHistCase, st: &mut Stats) -> CaseResult {
+    let n = (case.nv as usize).clamp(10, 18);
+    let order: Vec<rsdd::repr::VarLabel> = crate::big::permutation(case.seed, n).into_iter().map(rsdd::repr::VarLabel::new_usize).collect();
+    rsdd::verif_hooks::set_unique_table_capacity(case.table_cap.map(|c| c as usize));
+    if case.shape == 0 {
+        let b = RobddBuilder::<rsdd::builder::cache::AllIteTable<BddPtr>>::new(rsdd::repr::VarOrder::new(&order));
+        rsdd::verif_hooks::set_unique_table_capacity(None);
+        let _ = b.true_ptr();
+        crate::bighist::run_big_hist(&BddOps(&b), case, n, "C01", true, st)
+    } else {
+        let b = RobddBuilder::<rsdd::builder::cache::LruIteTable<BddPtr>>::new(rsdd::repr::VarOrder::new(&order));
+        rsdd::verif_hooks::set_unique_table_capacity(None);
+        let _ = b.true_ptr();
+        crate::bighist::run_big_hist(&BddOps(&b), case, n, "C01", true, st)
+    }
+}
+
+impl SubCheckT for BigHist {
+    type Case = crate::bighist::BigHistCase;
+    const NAME: &'static str = "histories_on_many_variables";
+    const RULE: &'static str = "builder over 10..18 variables (pseudo-random order, either cache, unique table default or 1..64 slots); a pool grown from parity-like seeds by 8..40 operations (and, or, xor, iff, ite, not, condition, and up to five exists / compose), every entry paired with a node of an expression DAG that records how it was made; after every operation, and for the whole pool at the end, the diagram read by the harness's own walk and the harness's evaluation of the DAG agree on 20 sampled assignments (compose evaluated as exists v. (v <=> g) & f). Non-trivial: a diagram of more than 64 nodes took part";
+    fn cases(tier: Tier) -> u32 {
+        tier.pick(1200, 30_000)
+    }
+    fn strategy(_tier: Tier) -> BoxedStrategy<crate::bighist::BigHistCase> {
+        crate::bighist::big_hist_strategy(18, 40)
+    }
+    fn run(case: &crate::bighist::BigHistCase, st: &mut Stats) -> CaseResult {
+        run_big_hist(case, st)
+    }
+}
+
 pub fn property() -> Property {
     Property {
         id: "C01",
-        subs: vec![sub::<Hist>()],
+        subs: vec![sub::<Hist>(), sub::<BigHist>()],
         fuzz: vec![FuzzSpec { target: "bdd_ops", runs: 60000, max_len: 400 }],
         assumptions: vec![
-            "truth tables over <= 8 variables; histories of <= 60 operations",
+            "truth tables over <= 8 variables, histories of <= 60 operations; sub-check histories_on_many_variables: 10..18 variables, oracle = the harness's evaluation of the recorded operations on sampled assignments",
             "the walker reads BddPtr/BddNode public fields; the oracle is a 256-bit truth table written from the operation definitions (compose = exists v. (v<=>g) & f as documented)",
         ],
         nt_floor_percent: 20,
